@@ -166,11 +166,17 @@ def _get_list_of_params_with_type(
     if func_info.is_property:
         params_by_name.append(("self", ""))
     found_last_positional = False
+    pending_positional_only = False
     arg_position = 0
     for p, v in sig.parameters.items():
         if func_info.is_property and arg_position < 2:
             continue
         arg_position += 1
+        if v.kind == inspect.Parameter.POSITIONAL_ONLY:
+            pending_positional_only = True
+        elif pending_positional_only:
+            params_by_name.append(("/", ""))
+            pending_positional_only = False
         if v.kind == inspect.Parameter.VAR_POSITIONAL:
             found_last_positional = True
         if v.kind == inspect.Parameter.KEYWORD_ONLY and not found_last_positional:
@@ -195,6 +201,8 @@ def _get_list_of_params_with_type(
             else type_annotation
         )
         params_by_name.append((p_name, f"{type_annotation}{default}"))
+    if pending_positional_only:
+        params_by_name.append(("/", ""))
 
     return params_by_name
 
